@@ -69,7 +69,7 @@ def rule_G2(ctx):
             continue
         own_variant = f.name in variants
         for x in refs:
-            if ctx.rk(f.key) in VARIANT_REFS_ALLOWED or (own_variant and f.name.endswith('_lsb0')) or f.cls == 'BitStore' and own_variant:
+            if ctx.reason_key(VARIANT_REFS_ALLOWED, f.key) is not None or (own_variant and f.name.endswith('_lsb0')) or f.cls == 'BitStore' and own_variant:
                 r.ok(f'{f.key}:{x.attr}', reason=True)
             else:
                 # mixing?  the function also uses a switched accessor on self
@@ -126,7 +126,7 @@ def rule_G3(ctx):
             for cs in ctx.fa(n).calls:
                 if not slot_call(ctx, cs) or cs.name not in POSITION_SLOTS:
                     continue
-                if (ctx.rk(f.key), cs.name) in G3_REASONS:
+                if ctx.reason_key(G3_REASONS, f.key, cs.name) is not None:
                     continue
                 if _whole_range(ctx, g, cs, parent):
                     continue
